@@ -90,6 +90,9 @@ type NodeSpec struct {
 	Absent bool   `json:"absent,omitempty"` // foreign content that the source does not hold
 	// raw content override (JSON configs for platform selection etc.)
 	Raw string `json:"raw,omitempty"`
+	// Alias k > 0 (blobs): the bytes (and digest algorithm) of node k-1, i.e. the same
+	// content listed under this blob's media type (a manifest also listed as a plain blob)
+	Alias int `json:"alias,omitempty"`
 	// manifests
 	Config       *Ref              `json:"config,omitempty"`
 	Layers       []Ref             `json:"layers,omitempty"` // layers / blobs / manifests
@@ -222,7 +225,14 @@ func Build(specs []NodeSpec) *DAG {
 		switch s.Kind {
 		case KBlob:
 			mt = s.MT
-			if s.Raw != "" {
+			if s.Alias > 0 {
+				if s.Alias-1 >= i {
+					panic(fmt.Sprintf("gen: node %d aliases %d", i, s.Alias-1))
+				}
+				n.Bytes = d.Nodes[s.Alias-1].Bytes
+				s.Alg = d.Nodes[s.Alias-1].Spec.Alg
+				n.Spec.Alg = s.Alg
+			} else if s.Raw != "" {
 				n.Bytes = []byte(s.Raw)
 			} else {
 				n.Bytes = BlobBytes(s.Seed, s.Size)
